@@ -11,8 +11,12 @@
 //   reset h | unify h | dtor h
 //   objassign h s                    *h = *s  (ReferenceCounter::operator= must leave both counts alone)
 //   use h | unique h | valid h | empty h | eq h s | get h     queries (use: h must be non-empty)
-// answer: "<ret> ; h=[..] ; o=[..]"  (per handle: - / null / o<id>; per object: its
-// reference_count(), or X<k> once it has been destroyed k times).
+//   mode default|counting|nodelete   (first op of a case) the Deleter of all six handle types of the case:
+//                                    CountingPtrDefaultDeleter, a logging custom deleter, CountingPtrNoOperationDeleter
+//                                    (= CountingPtrNoDelete) over arena objects owned by the harness
+// answer: "<ret> ; h=[..] ; o=[..] ; del=[..]"  (per handle: - / null / o<id>; per object: its
+// reference_count(), or X<k> once its deleter has run k times; del = the objects whose deleter was
+// invoked by THIS operation).
 // Direct oracle after every operation: refcount of every live object == number of handles that
 // point to it and >= 1; no handle points to a destroyed object; nothing destroyed twice; at the
 // end of a case (all handles destroyed) every object has been destroyed exactly once.
@@ -45,9 +49,10 @@
 
 // ---------------------------------------------------------------- atomic shim (namespace tlx only)
 namespace c12 {
-enum Kind { K_INC, K_DEC, K_LOAD, K_DEL, K_COPY };
+enum Kind { K_INC, K_DEC, K_LOAD, K_DEL, K_COPY, K_STORE, K_CAS };
 void sched_point();                       // blocks until the scheduler lets this thread perform its next step
 void log_event(Kind k, size_t value);     // called right after the step was performed
+void barrier_point();
 extern thread_local int tl_thread;        // >= 0 inside a scheduled worker
 // the counter of the shared object of the current `conc` run (only its operations are scheduled)
 extern const void* g_shared_rc;
@@ -70,6 +75,7 @@ public:
     atomic(T v) noexcept : v_(v) {}   // NOLINT
     atomic(const atomic&) = delete;
     atomic& operator=(const atomic&) = delete;
+    // every operation of the std::atomic interface on the scheduled counter is a scheduling point + event
     T operator++() noexcept {
         if (!c12::scheduled(this)) return ++v_;
         c12::sched_point(); T r = ++v_; c12::log_event(c12::K_INC, r); return r;
@@ -78,9 +84,40 @@ public:
         if (!c12::scheduled(this)) return --v_;
         c12::sched_point(); T r = --v_; c12::log_event(c12::K_DEC, r); return r;
     }
-    operator T() const noexcept {
+    T operator++(int) noexcept { return fetch_add(1); }
+    T operator--(int) noexcept { return fetch_sub(1); }
+    T operator+=(T d) noexcept { return fetch_add(d) + d; }
+    T operator-=(T d) noexcept { return fetch_sub(d) - d; }
+    T fetch_add(T d, ::std::memory_order = ::std::memory_order_seq_cst) noexcept {
+        if (!c12::scheduled(this)) return v_.fetch_add(d);
+        c12::sched_point(); T r = v_.fetch_add(d); c12::log_event(c12::K_INC, r + d); return r;
+    }
+    T fetch_sub(T d, ::std::memory_order = ::std::memory_order_seq_cst) noexcept {
+        if (!c12::scheduled(this)) return v_.fetch_sub(d);
+        c12::sched_point(); T r = v_.fetch_sub(d); c12::log_event(c12::K_DEC, r - d); return r;
+    }
+    operator T() const noexcept { return load(); }
+    T load(::std::memory_order = ::std::memory_order_seq_cst) const noexcept {
         if (!c12::scheduled(this)) return v_.load();
         c12::sched_point(); T r = v_.load(); c12::log_event(c12::K_LOAD, r); c12::after_load(this); return r;
+    }
+    void store(T v, ::std::memory_order = ::std::memory_order_seq_cst) noexcept {
+        if (!c12::scheduled(this)) { v_.store(v); return; }
+        c12::sched_point(); v_.store(v); c12::log_event(c12::K_STORE, v);
+    }
+    T operator=(T v) noexcept { store(v); return v; }
+    T exchange(T v, ::std::memory_order = ::std::memory_order_seq_cst) noexcept {
+        if (!c12::scheduled(this)) return v_.exchange(v);
+        c12::sched_point(); T r = v_.exchange(v); c12::log_event(c12::K_STORE, v); return r;
+    }
+    bool compare_exchange_strong(T& e, T d, ::std::memory_order = ::std::memory_order_seq_cst,
+                                 ::std::memory_order = ::std::memory_order_seq_cst) noexcept {
+        if (!c12::scheduled(this)) return v_.compare_exchange_strong(e, d);
+        c12::sched_point(); bool ok = v_.compare_exchange_strong(e, d); c12::log_event(c12::K_CAS, ok ? d : e); return ok;
+    }
+    bool compare_exchange_weak(T& e, T d, ::std::memory_order a = ::std::memory_order_seq_cst,
+                               ::std::memory_order b = ::std::memory_order_seq_cst) noexcept {
+        return compare_exchange_strong(e, d, a, b);
     }
 };
 }  // namespace std
@@ -93,12 +130,25 @@ public:
 #include <tlx/counting_ptr.hpp>
 #undef private
 
-// ---------------------------------------------------------------- objects with a destruction log
-struct ObjRec { const void* addr; int destroyed; };
+// ---------------------------------------------------------------- objects with a destruction / deleter log
+// Three deleter modes (selected per case by `mode default|counting|nodelete`, default after `case`):
+//   default   tlx::CountingPtrDefaultDeleter, objects from `new`; "deleter ran" is observed as the destructor run
+//   counting  a custom deleter that logs its invocation and then deletes
+//   nodelete  tlx::CountingPtrNoOperationDeleter (CountingPtrNoDelete) over objects that live in an arena owned by
+//             the harness: the deleter must be invoked (nothing observable) and `delete` must NEVER be applied
+//             (ASan: free of an address inside the arena block); "released" is observed as count == 0
+struct ObjRec {
+    const void* addr;
+    int destroyed;        // destructor runs caused by tlx (not by the harness' own cleanup)
+    int deleter_calls;    // logged invocations of the counting deleter
+    int released;         // how often the managing deleter is known to have been invoked (see modes)
+    bool harness_owned;   // arena object, or heap clone that the harness has to free itself (nodelete mode)
+};
 static std::vector<ObjRec> g_objs;                 // by id
-static std::map<const void*, int> g_live;          // address of the ReferenceCounter-derived object -> id
+static std::map<const void*, int> g_live;          // address of a not yet released object -> id
 static std::vector<std::string> g_errors;
 static std::mutex g_obj_mutex;                     // stress mode creates/destroys from several threads
+static bool g_harness_cleanup = false;             // the harness itself is destroying harness-owned objects
 
 struct Base : public tlx::ReferenceCounter {
     int id;
@@ -113,14 +163,16 @@ struct Base : public tlx::ReferenceCounter {
     virtual ~Base() {
         if (c12::scheduled(&reference_count_)) { c12::sched_point(); c12::log_event(c12::K_DEL, 0); c12::g_shared_dying = true; }
         std::lock_guard<std::mutex> lk(g_obj_mutex);
-        if (g_objs[id].destroyed++) g_errors.push_back("object o" + std::to_string(id) + " destroyed again");
-        g_live.erase(static_cast<const void*>(this));
+        if (!g_harness_cleanup) {
+            if (g_objs[id].destroyed++) g_errors.push_back("object o" + std::to_string(id) + " destroyed again");
+            g_live.erase(static_cast<const void*>(this));
+        }
         payload = -1;
     }
     void born() {
         std::lock_guard<std::mutex> lk(g_obj_mutex);
         id = static_cast<int>(g_objs.size());
-        g_objs.push_back(ObjRec{ static_cast<const void*>(this), 0 });
+        g_objs.push_back(ObjRec{ static_cast<const void*>(this), 0, 0, 0, false });
         g_live[static_cast<const void*>(this)] = id;
     }
 };
@@ -130,140 +182,249 @@ struct Derived : public Base {
     Derived(const Derived& o) : Base(o) { extra[0] = o.extra[0]; }
 };
 
-typedef tlx::CountingPtr<Derived> DPtr;
-typedef tlx::CountingPtr<Base> BPtr;
-
-static DPtr* hd[4];
-static BPtr* hb[2];
-alignas(DPtr) static unsigned char hd_store[4][sizeof(DPtr)];
-alignas(BPtr) static unsigned char hb_store[2][sizeof(BPtr)];
-
-static bool is_b(int h) { return h >= 4; }
-static bool exists(int h) { return h >= 0 && h < 6 && (is_b(h) ? hb[h - 4] != nullptr : hd[h] != nullptr); }
-static const void* raw_of(int h) {
-    if (is_b(h)) return static_cast<const void*>(hb[h - 4]->get());
-    return static_cast<const void*>(static_cast<Base*>(hd[h]->get()));
-}
-
-static std::string dump() {
-    std::ostringstream os;
-    os << "h=[";
-    for (int h = 0; h < 6; ++h) {
-        if (h) os << ',';
-        if (!exists(h)) { os << '-'; continue; }
-        const void* p = raw_of(h);
-        if (!p) { os << "null"; continue; }
-        auto it = g_live.find(p);
-        if (it == g_live.end()) os << "dangling"; else os << 'o' << it->second;
+//! custom deleter: logs its invocation, then deletes
+struct CountingDeleter {
+    template <typename Type>
+    void operator()(Type* ptr) const noexcept {
+        { std::lock_guard<std::mutex> lk(g_obj_mutex); ++g_objs[static_cast<const Base*>(ptr)->id].deleter_calls; }
+        delete ptr;
     }
-    os << "] ; o=[";
-    for (size_t i = 0; i < g_objs.size(); ++i) {
-        if (i) os << ',';
-        if (g_objs[i].destroyed) os << 'X' << g_objs[i].destroyed;
-        else os << static_cast<const Base*>(g_objs[i].addr)->reference_count();
-    }
-    os << "]";
-    return os.str();
-}
+};
 
-static void oracle(const std::string& op) {
-    for (auto& e : g_errors) vh::viol("countingptr: " + e + " after " + op);
-    g_errors.clear();
-    std::vector<size_t> nh(g_objs.size(), 0);
-    for (int h = 0; h < 6; ++h) {
-        if (!exists(h)) continue;
-        const void* p = raw_of(h);
-        if (!p) continue;
-        auto it = g_live.find(p);
-        if (it == g_live.end()) { vh::viol("countingptr: handle " + std::to_string(h) + " points to a destroyed object after " + op); continue; }
-        ++nh[static_cast<size_t>(it->second)];
+// arena for the nodelete mode: ONE malloc block; `delete` of an object inside it is an invalid free
+static const size_t ARENA_SLOTS = 160;
+static unsigned char* g_arena = nullptr;
+static size_t g_arena_used = 0;
+
+enum Mode { M_DEFAULT, M_COUNTING, M_NODELETE };
+static Mode g_mode = M_DEFAULT;
+static bool g_case_has_ops = false;
+
+template <typename Del> struct ModeOf;
+template <> struct ModeOf<tlx::CountingPtrDefaultDeleter> { static const Mode value = M_DEFAULT; };
+template <> struct ModeOf<CountingDeleter> { static const Mode value = M_COUNTING; };
+template <> struct ModeOf<tlx::CountingPtrNoOperationDeleter> { static const Mode value = M_NODELETE; };
+
+template <typename Del>
+struct Seq {
+    typedef tlx::CountingPtr<Derived, Del> DPtr;
+    typedef tlx::CountingPtr<Base, Del> BPtr;
+    static DPtr* hd[4];
+    static BPtr* hb[2];
+    alignas(DPtr) static unsigned char hd_store[4][sizeof(DPtr)];
+    alignas(BPtr) static unsigned char hb_store[2][sizeof(BPtr)];
+
+    static bool is_b(int h) { return h >= 4; }
+    static bool exists(int h) { return h >= 0 && h < 6 && (is_b(h) ? hb[h - 4] != nullptr : hd[h] != nullptr); }
+    static const void* raw_of(int h) {
+        if (is_b(h)) return static_cast<const void*>(hb[h - 4]->get());
+        return static_cast<const void*>(static_cast<Base*>(hd[h]->get()));
     }
-    for (size_t i = 0; i < g_objs.size(); ++i) {
-        if (g_objs[i].destroyed) {
-            if (g_objs[i].destroyed != 1) vh::viol("countingptr: object o" + std::to_string(i) + " destroyed " + std::to_string(g_objs[i].destroyed) + " times after " + op);
-            continue;
+    static Derived* fresh() {
+        if (ModeOf<Del>::value != M_NODELETE) return new Derived();
+        if (!g_arena) { g_arena = static_cast<unsigned char*>(malloc(ARENA_SLOTS * sizeof(Derived))); g_arena_used = 0; }
+        Derived* d = new (g_arena + sizeof(Derived) * g_arena_used++) Derived();
+        g_objs[static_cast<size_t>(d->id)].harness_owned = true;
+        return d;
+    }
+    // bring `released` up to date and return the objects whose deleter ran during the last operation
+    static std::vector<int> settle_released(const std::string& op) {
+        std::vector<int> now;
+        for (size_t i = 0; i < g_objs.size(); ++i) {
+            ObjRec& o = g_objs[i];
+            int rel = o.released;
+            if (ModeOf<Del>::value == M_DEFAULT) rel = o.destroyed;
+            else if (ModeOf<Del>::value == M_COUNTING) {
+                rel = o.deleter_calls;
+                if (o.destroyed != o.deleter_calls)
+                    vh::viol("countingptr: object o" + std::to_string(i) + " was destroyed " + std::to_string(o.destroyed) + " times but its deleter was invoked " + std::to_string(o.deleter_calls) + " times after " + op);
+            }
+            else {
+                if (o.destroyed) vh::viol("countingptr: object o" + std::to_string(i) + " managed by CountingPtrNoDelete was deleted after " + op);
+                else if (!o.released && static_cast<const Base*>(o.addr)->reference_count() == 0) {
+                    rel = 1;                                      // count reached zero: the no-op deleter's turn
+                    if (!o.harness_owned) o.harness_owned = true;  // a clone made by unify(): ours to free
+                    g_live.erase(o.addr);
+                }
+            }
+            if (rel > o.released) now.push_back(static_cast<int>(i));
+            o.released = rel;
         }
-        size_t rc = static_cast<const Base*>(g_objs[i].addr)->reference_count();
-        if (rc != nh[i]) vh::viol("countingptr: object o" + std::to_string(i) + " has reference count " + std::to_string(rc) + " but " + std::to_string(nh[i]) + " handles point to it after " + op);
-        if (nh[i] == 0) vh::viol("countingptr: object o" + std::to_string(i) + " has no handle left but was not destroyed after " + op);
+        return now;
     }
-}
-
-static void do_seq(const std::vector<std::string>& t, const std::string& line) {
-    const std::string& op = t[0];
-    int h = -1, s = -1;
-    try {
-        if (t.size() >= 2) h = std::stoi(t[1]);
-        if (t.size() >= 3) s = std::stoi(t[2]);
-    } catch (...) { vh::answer("bad-op"); return; }
-    bool two = (op == "objassign" || op == "raw" || op == "copy" || op == "move" || op == "assign" || op == "massign" || op == "swap" || op == "fswap" || op == "eq");
-    bool ctor = (op == "make" || op == "null" || op == "raw" || op == "copy" || op == "move");
-    bool ok = h >= 0 && h < 6 && t.size() == (two ? 3u : 2u);
-    if (ok && two) ok = exists(s);
-    if (ok && ctor) ok = !exists(h);
-    if (ok && !ctor) ok = exists(h);
-    // a Derived handle cannot be made from a Base handle; swap/eq need the same handle type
-    if (ok && two && op != "objassign" && !is_b(h) && is_b(s)) ok = false;
-    if (ok && (op == "swap" || op == "fswap" || op == "eq" || op == "raw") && is_b(h) != is_b(s)) ok = false;
-    if (ok && op == "use") ok = raw_of(h) != nullptr;
-    if (ok && op == "objassign") ok = raw_of(h) != nullptr && raw_of(s) != nullptr;
-    if (!ok) { vh::answer("bad-op"); return; }
-    std::string ret = "ok";
+    static std::string dump(const std::vector<int>& now) {
+        std::ostringstream os;
+        os << "h=[";
+        for (int h = 0; h < 6; ++h) {
+            if (h) os << ',';
+            if (!exists(h)) { os << '-'; continue; }
+            const void* p = raw_of(h);
+            if (!p) { os << "null"; continue; }
+            auto it = g_live.find(p);
+            if (it == g_live.end()) os << "dangling"; else os << 'o' << it->second;
+        }
+        os << "] ; o=[";
+        for (size_t i = 0; i < g_objs.size(); ++i) {
+            if (i) os << ',';
+            if (g_objs[i].released) os << 'X' << g_objs[i].released;
+            else if (g_objs[i].destroyed) os << "DELETED";
+            else os << static_cast<const Base*>(g_objs[i].addr)->reference_count();
+        }
+        os << "] ; del=[";
+        for (size_t i = 0; i < now.size(); ++i) os << (i ? "," : "") << 'o' << now[i];
+        os << "]";
+        return os.str();
+    }
+    static void oracle(const std::string& op) {
+        for (auto& e : g_errors) vh::viol("countingptr: " + e + " after " + op);
+        g_errors.clear();
+        std::vector<size_t> nh(g_objs.size(), 0);
+        for (int h = 0; h < 6; ++h) {
+            if (!exists(h)) continue;
+            const void* p = raw_of(h);
+            if (!p) continue;
+            auto it = g_live.find(p);
+            if (it == g_live.end()) { vh::viol("countingptr: handle " + std::to_string(h) + " points to an object whose deleter has run, after " + op); continue; }
+            ++nh[static_cast<size_t>(it->second)];
+        }
+        for (size_t i = 0; i < g_objs.size(); ++i) {
+            const ObjRec& o = g_objs[i];
+            if (o.released) {
+                if (o.released != 1) vh::viol("countingptr: the deleter of object o" + std::to_string(i) + " ran " + std::to_string(o.released) + " times after " + op);
+                continue;
+            }
+            if (o.destroyed) continue;   // destroyed without its deleter: already reported
+            size_t rc = static_cast<const Base*>(o.addr)->reference_count();
+            if (rc != nh[i]) vh::viol("countingptr: object o" + std::to_string(i) + " has reference count " + std::to_string(rc) + " but " + std::to_string(nh[i]) + " handles point to it after " + op);
+            if (nh[i] == 0) vh::viol("countingptr: object o" + std::to_string(i) + " has no handle left but its deleter has not run after " + op);
+        }
+    }
+    static void run(const std::vector<std::string>& t, const std::string& line) {
+        const std::string& op = t[0];
+        int h = -1, s = -1;
+        try {
+            if (t.size() >= 2) h = std::stoi(t[1]);
+            if (t.size() >= 3) s = std::stoi(t[2]);
+        } catch (...) { vh::answer("bad-op"); return; }
+        bool two = (op == "objassign" || op == "raw" || op == "copy" || op == "move" || op == "assign" || op == "massign" || op == "swap" || op == "fswap" || op == "eq");
+        bool ctor = (op == "make" || op == "null" || op == "raw" || op == "copy" || op == "move");
+        bool ok = h >= 0 && h < 6 && t.size() == (two ? 3u : 2u);
+        if (ok && two) ok = exists(s);
+        if (ok && ctor) ok = !exists(h);
+        if (ok && !ctor) ok = exists(h);
+        // a Derived handle cannot be made from a Base handle; swap/eq need the same handle type
+        if (ok && two && op != "objassign" && !is_b(h) && is_b(s)) ok = false;
+        if (ok && (op == "swap" || op == "fswap" || op == "eq" || op == "raw") && is_b(h) != is_b(s)) ok = false;
+        if (ok && op == "use") ok = raw_of(h) != nullptr;
+        if (ok && op == "objassign") ok = raw_of(h) != nullptr && raw_of(s) != nullptr;
+        if (ok && op == "make" && ModeOf<Del>::value == M_NODELETE) ok = g_arena_used < ARENA_SLOTS;
+        if (!ok) { vh::answer("bad-op"); return; }
+        std::string ret = "ok";
 #define H_D (*hd[h])
 #define H_B (*hb[h - 4])
 #define S_D (*hd[s])
 #define S_B (*hb[s - 4])
-    if (op == "make") { if (is_b(h)) hb[h - 4] = new (hb_store[h - 4]) BPtr(new Derived()); else hd[h] = new (hd_store[h]) DPtr(new Derived()); }
-    else if (op == "null") { if (is_b(h)) hb[h - 4] = new (hb_store[h - 4]) BPtr(); else hd[h] = new (hd_store[h]) DPtr(nullptr); }
-    else if (op == "raw") { if (is_b(h)) hb[h - 4] = new (hb_store[h - 4]) BPtr(S_B.get()); else hd[h] = new (hd_store[h]) DPtr(S_D.get()); }
-    else if (op == "copy") {
-        if (is_b(h)) { if (is_b(s)) hb[h - 4] = new (hb_store[h - 4]) BPtr(S_B); else hb[h - 4] = new (hb_store[h - 4]) BPtr(S_D); }
-        else hd[h] = new (hd_store[h]) DPtr(S_D);
+        if (op == "make") { if (is_b(h)) hb[h - 4] = new (hb_store[h - 4]) BPtr(fresh()); else hd[h] = new (hd_store[h]) DPtr(fresh()); }
+        else if (op == "null") { if (is_b(h)) hb[h - 4] = new (hb_store[h - 4]) BPtr(); else hd[h] = new (hd_store[h]) DPtr(nullptr); }
+        else if (op == "raw") { if (is_b(h)) hb[h - 4] = new (hb_store[h - 4]) BPtr(S_B.get()); else hd[h] = new (hd_store[h]) DPtr(S_D.get()); }
+        else if (op == "copy") {
+            if (is_b(h)) { if (is_b(s)) hb[h - 4] = new (hb_store[h - 4]) BPtr(S_B); else hb[h - 4] = new (hb_store[h - 4]) BPtr(S_D); }
+            else hd[h] = new (hd_store[h]) DPtr(S_D);
+        }
+        else if (op == "move") {
+            if (is_b(h)) { if (is_b(s)) hb[h - 4] = new (hb_store[h - 4]) BPtr(std::move(S_B)); else hb[h - 4] = new (hb_store[h - 4]) BPtr(std::move(S_D)); }
+            else hd[h] = new (hd_store[h]) DPtr(std::move(S_D));
+        }
+        else if (op == "assign") { if (is_b(h)) { if (is_b(s)) H_B = S_B; else H_B = S_D; } else H_D = S_D; }
+        else if (op == "massign") { if (is_b(h)) { if (is_b(s)) H_B = std::move(S_B); else H_B = std::move(S_D); } else H_D = std::move(S_D); }
+        else if (op == "swap") { if (is_b(h)) H_B.swap(S_B); else H_D.swap(S_D); }
+        else if (op == "fswap") { if (is_b(h)) tlx::swap(H_B, S_B); else tlx::swap(H_D, S_D); }
+        else if (op == "reset") { if (is_b(h)) H_B.reset(); else H_D.reset(); }
+        else if (op == "unify") { if (is_b(h)) H_B.unify(); else H_D.unify(); }
+        else if (op == "objassign") {
+            // assign the managed objects (Base part when the handle types differ); ids stay with the objects
+            Base& dst = is_b(h) ? *H_B : static_cast<Base&>(*H_D);
+            const Base& src = is_b(s) ? *S_B : static_cast<const Base&>(*S_D);
+            int keep = dst.id;
+            dst = src;
+            dst.id = keep;
+        }
+        else if (op == "dtor") { if (is_b(h)) { H_B.~BPtr(); hb[h - 4] = nullptr; } else { H_D.~DPtr(); hd[h] = nullptr; } }
+        else if (op == "use") ret = std::to_string(is_b(h) ? H_B.use_count() : H_D.use_count());
+        else if (op == "unique") ret = (is_b(h) ? H_B.unique() : H_D.unique()) ? "1" : "0";
+        else if (op == "valid") ret = (is_b(h) ? (H_B.valid() && static_cast<bool>(H_B)) : (H_D.valid() && static_cast<bool>(H_D))) ? "1" : "0";
+        else if (op == "empty") ret = (is_b(h) ? H_B.empty() : H_D.empty()) ? "1" : "0";
+        else if (op == "eq") ret = (is_b(h) ? (H_B == S_B && !(H_B != S_B)) : (H_D == S_D && !(H_D != S_D))) ? "1" : "0";
+        else if (op == "get") {
+            const void* p = raw_of(h);
+            auto it = g_live.find(p);
+            ret = !p ? "null" : (it == g_live.end() ? "dangling" : "o" + std::to_string(it->second));
+        }
+        else { vh::answer("bad-op"); return; }
+#undef H_D
+#undef H_B
+#undef S_D
+#undef S_B
+        std::vector<int> now = settle_released(line);
+        vh::answer(ret + " ; " + dump(now));
+        oracle(line);
     }
-    else if (op == "move") {
-        if (is_b(h)) { if (is_b(s)) hb[h - 4] = new (hb_store[h - 4]) BPtr(std::move(S_B)); else hb[h - 4] = new (hb_store[h - 4]) BPtr(std::move(S_D)); }
-        else hd[h] = new (hd_store[h]) DPtr(std::move(S_D));
+    static void finish() {
+        for (int h = 0; h < 4; ++h) if (hd[h]) { hd[h]->~DPtr(); hd[h] = nullptr; }
+        for (int h = 0; h < 2; ++h) if (hb[h]) { hb[h]->~BPtr(); hb[h] = nullptr; }
+        settle_released("the end of the case");
     }
-    else if (op == "assign") { if (is_b(h)) { if (is_b(s)) H_B = S_B; else H_B = S_D; } else H_D = S_D; }
-    else if (op == "massign") { if (is_b(h)) { if (is_b(s)) H_B = std::move(S_B); else H_B = std::move(S_D); } else H_D = std::move(S_D); }
-    else if (op == "swap") { if (is_b(h)) H_B.swap(S_B); else H_D.swap(S_D); }
-    else if (op == "fswap") { if (is_b(h)) tlx::swap(H_B, S_B); else tlx::swap(H_D, S_D); }
-    else if (op == "reset") { if (is_b(h)) H_B.reset(); else H_D.reset(); }
-    else if (op == "unify") { if (is_b(h)) H_B.unify(); else H_D.unify(); }
-    else if (op == "objassign") {
-        // assign the managed objects (Base part when the handle types differ); ids stay with the objects
-        Base& dst = is_b(h) ? *H_B : static_cast<Base&>(*H_D);
-        const Base& src = is_b(s) ? *S_B : static_cast<const Base&>(*S_D);
-        int keep = dst.id;
-        dst = src;
-        dst.id = keep;
+};
+template <typename Del> typename Seq<Del>::DPtr* Seq<Del>::hd[4];
+template <typename Del> typename Seq<Del>::BPtr* Seq<Del>::hb[2];
+template <typename Del> alignas(typename Seq<Del>::DPtr) unsigned char Seq<Del>::hd_store[4][sizeof(typename Seq<Del>::DPtr)];
+template <typename Del> alignas(typename Seq<Del>::BPtr) unsigned char Seq<Del>::hb_store[2][sizeof(typename Seq<Del>::BPtr)];
+
+typedef Seq<tlx::CountingPtrDefaultDeleter> SeqDefault;
+typedef Seq<CountingDeleter> SeqCounting;
+typedef Seq<tlx::CountingPtrNoOperationDeleter> SeqNoDelete;
+typedef tlx::CountingPtr<Derived> DPtr;
+typedef tlx::CountingPtr<Base> BPtr;
+
+static void do_seq(const std::vector<std::string>& t, const std::string& line) {
+    if (t[0] == "mode") {
+        // only as the first operation of a case
+        Mode m = t.size() == 2 && t[1] == "default" ? M_DEFAULT : t.size() == 2 && t[1] == "counting" ? M_COUNTING
+               : t.size() == 2 && t[1] == "nodelete" ? M_NODELETE : static_cast<Mode>(-1);
+        if (m == static_cast<Mode>(-1) || g_case_has_ops) { vh::answer("bad-op"); return; }
+        g_mode = m; g_case_has_ops = true;
+        vh::answer("ok");
+        return;
     }
-    else if (op == "dtor") { if (is_b(h)) { H_B.~BPtr(); hb[h - 4] = nullptr; } else { H_D.~DPtr(); hd[h] = nullptr; } }
-    else if (op == "use") ret = std::to_string(is_b(h) ? H_B.use_count() : H_D.use_count());
-    else if (op == "unique") ret = (is_b(h) ? H_B.unique() : H_D.unique()) ? "1" : "0";
-    else if (op == "valid") ret = (is_b(h) ? (H_B.valid() && static_cast<bool>(H_B)) : (H_D.valid() && static_cast<bool>(H_D))) ? "1" : "0";
-    else if (op == "empty") ret = (is_b(h) ? H_B.empty() : H_D.empty()) ? "1" : "0";
-    else if (op == "eq") ret = (is_b(h) ? (H_B == S_B && !(H_B != S_B)) : (H_D == S_D && !(H_D != S_D))) ? "1" : "0";
-    else if (op == "get") {
-        const void* p = raw_of(h);
-        auto it = g_live.find(p);
-        ret = !p ? "null" : (it == g_live.end() ? "dangling" : "o" + std::to_string(it->second));
-    }
-    else { vh::answer("bad-op"); return; }
-    vh::answer(ret + " ; " + dump());
-    oracle(line);
+    g_case_has_ops = true;
+    if (g_mode == M_COUNTING) SeqCounting::run(t, line);
+    else if (g_mode == M_NODELETE) SeqNoDelete::run(t, line);
+    else SeqDefault::run(t, line);
 }
 
 static void end_case() {
-    for (int h = 0; h < 4; ++h) if (hd[h]) { hd[h]->~DPtr(); hd[h] = nullptr; }
-    for (int h = 0; h < 2; ++h) if (hb[h]) { hb[h]->~BPtr(); hb[h] = nullptr; }
+    if (g_mode == M_COUNTING) SeqCounting::finish(); else if (g_mode == M_NODELETE) SeqNoDelete::finish(); else SeqDefault::finish();
     for (auto& e : g_errors) vh::viol("countingptr: " + e + " at the end of the case");
     g_errors.clear();
-    for (size_t i = 0; i < g_objs.size(); ++i)
-        if (g_objs[i].destroyed != 1)
+    for (size_t i = 0; i < g_objs.size(); ++i) {
+        if (g_objs[i].released != 1)
+            vh::viol("countingptr: the deleter of object o" + std::to_string(i) + " ran " + std::to_string(g_objs[i].released) + " times after all handles were destroyed");
+        if (!g_objs[i].harness_owned && g_objs[i].destroyed != 1)
             vh::viol("countingptr: object o" + std::to_string(i) + " destroyed " + std::to_string(g_objs[i].destroyed) + " times after all handles were destroyed");
+    }
+    // the owner of the nodelete objects (the harness) destroys them now: arena objects in place, clones with delete
+    g_harness_cleanup = true;
+    for (size_t i = 0; i < g_objs.size(); ++i) {
+        if (!g_objs[i].harness_owned || g_objs[i].destroyed) continue;
+        Base* b = const_cast<Base*>(static_cast<const Base*>(g_objs[i].addr));
+        bool in_arena = g_arena && reinterpret_cast<unsigned char*>(b) >= g_arena && reinterpret_cast<unsigned char*>(b) < g_arena + ARENA_SLOTS * sizeof(Derived);
+        if (in_arena) b->~Base(); else delete b;
+    }
+    g_harness_cleanup = false;
+    if (g_arena) { free(g_arena); g_arena = nullptr; g_arena_used = 0; }
     g_objs.clear();
     g_live.clear();
+    g_mode = M_DEFAULT; g_case_has_ops = false;
 }
 
 // ---------------------------------------------------------------- deterministic scheduler
@@ -276,7 +437,9 @@ struct Sched {
     std::condition_variable cv;
     int nthreads = 0;
     int running = -1;                 // worker allowed to run, -1 = controller
-    std::vector<int> state;           // 0 = running/not yet parked, 1 = parked at a scheduling point, 2 = finished
+    std::vector<int> state;           // 0 = running/not yet parked, 1 = parked at a scheduling point, 2 = finished,
+                                      // 3 = waiting at the barrier (not eligible until every unfinished thread is there)
+    unsigned barrier_gen = 0;
     std::vector<std::string> events;
     bool active = false;
 } S;
@@ -291,10 +454,22 @@ void sched_point() {
     S.cv.wait(lk, [&] { return S.running == me; });
     S.state[me] = 0;
 }
+// rendezvous of all unfinished worker threads (the lifetime protocol of `rawrace`): nobody passes
+// before everybody has arrived; what a thread does afterwards up to its next scheduling point is local
+void barrier_point() {
+    int me = tl_thread;
+    if (me < 0 || !S.active) return;
+    std::unique_lock<std::mutex> lk(S.m);
+    unsigned gen = S.barrier_gen;
+    S.state[me] = 3;
+    S.running = -1;
+    S.cv.notify_all();
+    S.cv.wait(lk, [&] { return S.barrier_gen != gen; });
+}
 void log_event(Kind k, size_t value) {
     int me = tl_thread;
     if (me < 0 || !S.active) return;
-    static const char* names[] = { "inc", "dec", "load", "del", "copy" };
+    static const char* names[] = { "inc", "dec", "load", "del", "copy", "store", "cas" };
     std::string e = "t" + std::to_string(me) + ":" + names[k];
     if (k != K_DEL && k != K_COPY) e += "=" + std::to_string(value);
     std::lock_guard<std::mutex> lk(S.m);
@@ -344,6 +519,89 @@ static void run_program(const std::string& prog, Ptr& L0, Ptr& L1, DPtr& D) {
 
 static bool valid_prog(const std::string& p) { return p.find_first_not_of("cabmnrqsuvQwxyzCKABM") == std::string::npos; }
 
+// the scheduler: lets exactly one parked worker perform its next step, chosen by the schedule
+// (k-th decision = schedule[k] mod number of eligible threads, round-robin afterwards); opens the
+// barrier when every unfinished worker waits there.  Returns the number of decisions.
+static size_t run_controller(int n, const std::vector<long long>& sched) {
+    using c12::S;
+    size_t k = 0, rr = 0;
+    std::unique_lock<std::mutex> lk(S.m);
+    for (;;) {
+        S.cv.wait(lk, [&] { if (S.running != -1) return false; for (int s : S.state) if (s == 0) return false; return true; });
+        std::vector<int> eligible, waiting;
+        for (int i = 0; i < n; ++i) {
+            if (S.state[static_cast<size_t>(i)] == 1) eligible.push_back(i);
+            if (S.state[static_cast<size_t>(i)] == 3) waiting.push_back(i);
+        }
+        if (eligible.empty() && waiting.empty()) break;
+        if (eligible.empty()) {
+            for (int i : waiting) S.state[static_cast<size_t>(i)] = 0;
+            ++S.barrier_gen;
+            S.cv.notify_all();
+            continue;
+        }
+        size_t pick = (k < sched.size() ? static_cast<size_t>(sched[k]) : rr++) % eligible.size();
+        ++k;
+        int tsel = eligible[pick];
+        S.state[static_cast<size_t>(tsel)] = 0;
+        S.running = tsel;
+        S.cv.notify_all();
+    }
+    return k;
+}
+
+// Harness-only (the Lean driver answers n/a):  rawrace <threads> <schedule>
+// Several threads construct a handle from the RAW pointer of one fresh, not yet referenced object
+// (count 0) -- `CountingPtr(Type*)` -- then meet at a barrier (the lifetime protocol: nobody lets go
+// before everybody holds a handle) and release.  Every atomic operation on the counter is a
+// scheduling point, so a non-atomic "first reference" fast path in inc_reference yields a concrete
+// schedule.  Oracle: the object is destroyed exactly once, by the last release, and never touched
+// afterwards (ASan for the use-after-free / double free).
+static void do_rawrace(const std::vector<std::string>& t, const std::string& line) {
+    if (t.size() != 3) { vh::answer("bad-op"); return; }
+    int n; std::vector<long long> sched;
+    try { n = std::stoi(t[1]); sched = vh::csv(t[2]); } catch (...) { vh::answer("bad-op"); return; }
+    if (n < 1 || n > 4) { vh::answer("bad-op"); return; }
+    for (auto x : sched) if (x < 0) { vh::answer("bad-op"); return; }
+    using c12::S;
+    size_t first_obj = g_objs.size();
+    Derived* raw = new Derived();                 // reference count 0, no handle yet
+    c12::g_shared_rc = static_cast<const void*>(&raw->reference_count_);
+    c12::g_shared_dying = false;
+    S.nthreads = n; S.state.assign(static_cast<size_t>(n), 0); S.events.clear(); S.running = -1; S.active = true;
+    std::vector<std::thread> th;
+    for (int i = 0; i < n; ++i) {
+        th.emplace_back([&, i] {
+            c12::tl_thread = i;
+            {
+                Ptr L(raw);                       // explicit CountingPtr(Type* ptr): inc_reference
+                c12::barrier_point();
+            }                                     // ~CountingPtr: dec_reference, the last one deletes
+            std::unique_lock<std::mutex> lk(S.m);
+            S.state[static_cast<size_t>(i)] = 2;
+            S.running = -1;
+            S.cv.notify_all();
+        });
+    }
+    size_t k = run_controller(n, sched);
+    for (auto& x : th) x.join();
+    S.active = false;
+    c12::g_shared_rc = nullptr;
+    std::ostringstream os;
+    for (size_t i = 0; i < S.events.size(); ++i) os << (i ? " " : "") << S.events[i];
+    const ObjRec& o = g_objs[first_obj];
+    os << " ; destroyed=" << o.destroyed << " steps=" << k;
+    vh::answer(os.str());
+    for (auto& e : g_errors) vh::viol("countingptr rawrace: " + e + " in " + line);
+    g_errors.clear();
+    if (o.destroyed != 1) vh::viol("countingptr rawrace: object destroyed " + std::to_string(o.destroyed) + " times after all " + std::to_string(n) + " handles made from its raw pointer were released, in " + line);
+    bool dead = false;
+    for (auto& e : S.events) {
+        if (dead && e.find(":load=0") == std::string::npos) vh::viol("countingptr rawrace: object accessed after its destruction began (" + e + ") in " + line);
+        if (e.find(":del") != std::string::npos) dead = true;
+    }
+}
+
 static void do_conc(const std::vector<std::string>& t, const std::string& line) {
     if (t.size() != 3) { vh::answer("bad-op"); return; }
     std::vector<std::string> progs;
@@ -381,22 +639,7 @@ static void do_conc(const std::vector<std::string>& t, const std::string& line) 
             S.cv.notify_all();
         });
     }
-    size_t k = 0, rr = 0;
-    {
-        std::unique_lock<std::mutex> lk(S.m);
-        for (;;) {
-            S.cv.wait(lk, [&] { if (S.running != -1) return false; for (int s : S.state) if (s == 0) return false; return true; });
-            std::vector<int> unfinished;
-            for (int i = 0; i < n; ++i) if (S.state[static_cast<size_t>(i)] == 1) unfinished.push_back(i);
-            if (unfinished.empty()) break;
-            size_t pick = (k < sched.size() ? static_cast<size_t>(sched[k]) : rr++) % unfinished.size();
-            ++k;
-            int tsel = unfinished[pick];
-            S.state[static_cast<size_t>(tsel)] = 0;
-            S.running = tsel;
-            S.cv.notify_all();
-        }
-    }
+    size_t k = run_controller(n, sched);
     for (auto& x : th) x.join();
     S.active = false;
     c12::g_shared_rc = nullptr;
@@ -485,8 +728,11 @@ int main(int argc, char** argv) {
             vh::answer("case");
             continue;
         }
-        if (t[0] == "conc") do_conc(t, line);
+        if (t[0] == "conc" || t[0] == "stress" || t[0] == "rawrace") g_case_has_ops = true;
+        if ((t[0] == "conc" || t[0] == "stress" || t[0] == "rawrace") && g_mode != M_DEFAULT) vh::answer("bad-op");   // default deleter only
+        else if (t[0] == "conc") do_conc(t, line);
         else if (t[0] == "stress") do_stress(t, line);
+        else if (t[0] == "rawrace") do_rawrace(t, line);
         else do_seq(t, line);
     }
     if (in_case) end_case();
